@@ -558,6 +558,9 @@ func HoldsOnEdge(v ssa.Value, want bool, from, to *ssa.BasicBlock) bool {
 	return any
 }
 
+// ThreadInfo exposes the jump-threading table (edge p->t => the only successor of t that can follow).
+func ThreadInfo(fn *ssa.Function) map[Edge]*ssa.BasicBlock { return threadInfo(fn) }
+
 var threadCache = map[*ssa.Function]map[Edge]*ssa.BasicBlock{}
 
 // threadInfo: for an edge P->T where T ends in a branch whose outcome is fixed by the value a phi
